@@ -200,6 +200,26 @@ def f_inner(x, k):
     return any(True for _ in q.evaluate())
 
 
+def _matches_of(x, k):
+    """the test-suite idiom: a generator that builds a query in its own block and hands its results out from inside it"""
+    from entity_query_language import symbolic_mode, an, entity, let
+    with symbolic_mode():
+        y = let(type(x), [x])
+        q = an(entity(y, CGt(y, k)))
+        yield from q.evaluate()
+
+
+@predicate
+def f_inner_gen(x, k):
+    """Like f_inner, but the inner query lives in a generator that is left after its first result (closed while it is
+    suspended inside its own symbolic block)."""
+    PRED_CALLS["f_inner_gen"] += 1
+    g = _matches_of(x, k)
+    first = next(g, None)
+    g.close()
+    return first is not None
+
+
 @predicate
 def f_ok(x):
     """Always true; raises Boom at its j-th call when armed (fault injection for C04)."""
@@ -249,7 +269,7 @@ class CSame(Predicate):
         return self.x.a == self.y.a
 
 
-FPREDS = {"f_gt": f_gt, "f_lt2": f_lt2, "f_ok": f_ok, "f_inner": f_inner, "f_vge": f_vge, "f_gtd": f_gtd}
+FPREDS = {"f_gt": f_gt, "f_lt2": f_lt2, "f_ok": f_ok, "f_inner": f_inner, "f_inner_gen": f_inner_gen, "f_vge": f_vge, "f_gtd": f_gtd}
 CPREDS = {"CGt": CGt, "CSame": CSame}
 # reference (plain Python) meaning of the predicates
 PRED_REF = {
@@ -257,6 +277,7 @@ PRED_REF = {
     "f_lt2": lambda x, y: x.a < y.a,
     "f_ok": lambda x: True,
     "f_inner": lambda x, k: x.a > k,
+    "f_inner_gen": lambda x, k: x.a > k,
     "f_vge": lambda v, k: v >= k,
     "f_gtd": lambda x, k=1: x.a > k,
     "CGt": lambda x, k: x.a > k,
